@@ -37,7 +37,7 @@ class Session:
         self.backend = backend
         so = dict(storage_options or {})
         so.setdefault("stats_interval", 1e15)  # housekeeping timer out of reach of the virtual clock
-        self.w = World(backend, config=config, storage_options=so, max_limit=max_limit, message_timeout=1e300)
+        self.w = World(backend, config=config, storage_options=so, max_limit=max_limit, message_timeout=1e300, _session=True)
         self.with_subscriber = subscriber
         self._raw = None
         self._open_conns()
